@@ -168,6 +168,77 @@ def sanitize(name):
     return re.sub(r"[^A-Za-z0-9_.#@=-]+", "_", name)[:180]
 
 
+def _child(conn, a, attempt):
+    try:
+        if attempt:
+            z3.set_param("smt.random_seed", 17 * attempt)       # another search order on the retry
+        conn.send(_run_task(a))
+    except BaseException:
+        conn.send({"task": f"task{a[2]}", "status": "crash", "error": traceback.format_exc(), "seconds": 0.0, "results": [], "functions": {},
+                   "opaque_used": [], "dropped": [], "tensor_ops": [], "bounded": [], "crosscheck": 0, "notes": [], "sources": {},
+                   "stats": {"branches": 0, "feasibility_checks": 0, "paths": 0}})
+    finally:
+        conn.close()
+
+
+def _run_tasks_guarded(args, jobs, tier):
+    """every task runs in its own forked process under a hard wall-clock limit: a solver call that ignores its timeout
+    (z3's nonlinear bound propagation can) is killed, the task is retried once with another solver seed, and if it hangs
+    again its obligations are reported UNDECIDED - never a verdict, never a hung check."""
+    hard = float(os.environ.get("PYVC_TASK_HARD_S", "200" if tier == "quick" else "900"))
+    ctx = multiprocessing.get_context("fork")
+    pending = [(i, a, 0) for i, a in enumerate(args)]
+    running = {}
+    outs = [None] * len(args)
+    while pending or running:
+        while pending and len(running) < jobs:
+            i, a, attempt = pending.pop(0)
+            rc, sc = ctx.Pipe(duplex=False)
+            pr = ctx.Process(target=_child, args=(sc, a, attempt))
+            pr.start()
+            sc.close()
+            running[i] = (pr, rc, time.time(), a, attempt)
+        for i in list(running):
+            pr, rc, t0, a, attempt = running[i]
+            if rc.poll(0.05):
+                try:
+                    outs[i] = rc.recv()
+                except EOFError:
+                    outs[i] = None
+                pr.join(5)
+                rc.close()
+                del running[i]
+                if outs[i] is None:
+                    outs[i] = _hung_result(a, "worker died without a result")
+            elif not pr.is_alive():
+                pr.join(1)
+                rc.close()
+                del running[i]
+                outs[i] = _hung_result(a, f"worker exited with code {pr.exitcode}")
+            elif time.time() - t0 > hard:
+                pr.kill()
+                pr.join(5)
+                rc.close()
+                del running[i]
+                if attempt == 0:
+                    pending.append((i, a, 1))
+                else:
+                    outs[i] = _hung_result(a, f"task exceeded the hard limit of {hard:.0f} s twice (a solver call ignored its timeout)")
+    return outs
+
+
+def _hung_result(a, why):
+    prop, modname, idx, tier, seed = a
+    try:
+        name = importlib.import_module(modname).tasks(tier)[idx][0]
+    except Exception:
+        name = f"task{idx}"
+    return {"task": name, "status": "unsupported", "error": why, "seconds": 0.0,
+            "results": [Result(f"{name}#engine", "unknown", "engine", 0.0, detail=why, meta={}).as_dict()], "functions": {}, "opaque_used": [],
+            "dropped": [], "tensor_ops": [], "bounded": [], "crosscheck": 0, "notes": [why], "sources": {},
+            "stats": {"branches": 0, "feasibility_checks": 0, "paths": 0}}
+
+
 def run_property(prop, tier="quick", seed=0, record_expected=False, only=None, jobs=None):
     t0 = time.time()
     modname = PROPERTY_MODULES[prop]
@@ -176,12 +247,10 @@ def run_property(prop, tier="quick", seed=0, record_expected=False, only=None, j
     idxs = [i for i, (n, _) in enumerate(tasks) if only is None or re.search(only, n)]
     jobs = jobs or int(os.environ.get("PYVC_JOBS", "16"))
     args = [(prop, modname, i, tier, seed) for i in idxs]
-    if jobs == 1 or len(args) == 1:
+    if jobs == 1 and os.environ.get("PYVC_INPROCESS"):
         outs = [_run_task(a) for a in args]
     else:
-        ctx = multiprocessing.get_context("fork")
-        with ctx.Pool(min(jobs, len(args))) as pool:
-            outs = pool.map(_run_task, args, chunksize=1)
+        outs = _run_tasks_guarded(args, min(jobs, len(args)), tier)
 
     known = load_known(prop)
     known_open = {k["obligation"]: k for k in known if k.get("status", "finding") == "finding"}
